@@ -80,12 +80,12 @@ type recBackend struct {
 	mu       sync.Mutex
 	calls    []backendCall
 	inflight int32
-	lastProd int64                                     // UpdatedAt of the last state handed to the table
-	failAt   map[int]bool                              // call ordinals that must fail
-	onCreate func(opts *pokerface.GameOptions)         // observe the options of CreateGame
-	fixDeck  func(gs *pokerface.GameState)             // make the deck reproducible
-	inCreate func()                                    // run inside CreateGame (before it returns)
-	settings []*pokerface.PlayerSetting                // last CreateGame player settings (copied)
+	lastProd int64                             // UpdatedAt of the last state handed to the table
+	failAt   map[int]bool                      // call ordinals that must fail
+	onCreate func(opts *pokerface.GameOptions) // observe the options of CreateGame
+	fixDeck  func(gs *pokerface.GameState)     // make the deck reproducible
+	inCreate func()                            // run inside CreateGame (before it returns)
+	settings []*pokerface.PlayerSetting        // last CreateGame player settings (copied)
 	optAnte  int64
 	optBlind pokerface.BlindSetting
 }
@@ -334,6 +334,7 @@ func (d *Drv) groupPending(states map[int64]bool) (nonEmpty, allReady bool) {
 //   - the hand's ready group is not complete-but-unprocessed,
 //   - a RoundClosed / GameClosed state is not the current one (they are consumed automatically),
 //   - after a hand: the table is in standby with the open-game gate set up for the next count, or pausing / closed.
+//
 // Returns false if that does not happen within the time limit (the caller reports a wedge).
 func (d *Drv) Quiesce(limit time.Duration) bool {
 	deadline := time.Now().Add(limit)
